@@ -30,16 +30,28 @@ def evaluate(e, env):
     if isinstance(e, ast.BinOp) and isinstance(e.op, (ast.Add, ast.Sub)):
         l, r = evaluate(e.left, env), evaluate(e.right, env)
         return l + r if isinstance(e.op, ast.Add) else l - r
+    if isinstance(e, ast.Subscript) and isinstance(e.slice, ast.Slice):
+        sl = e.slice
+        return evaluate(e.value, env)[slice(*(None if x is None else evaluate(x, env) for x in (sl.lower, sl.upper, sl.step)))]
     if isinstance(e, ast.Subscript):
         return evaluate(e.value, env)[evaluate(e.slice, env)]
     if isinstance(e, ast.Call) and "__stubs__" in env and src(e) in env["__stubs__"]:
         return env["__stubs__"][src(e)]          # a call whose result is supplied as a case parameter (never executed)
     if isinstance(e, ast.Call) and isinstance(e.func, ast.Name) and e.func.id == "len" and len(e.args) == 1:
         return len(evaluate(e.args[0], env))
+    if isinstance(e, ast.Call) and isinstance(e.func, ast.Attribute) and isinstance(e.func.value, ast.Name) and not e.keywords \
+            and e.func.attr in env.get("__methods__", {}) and (e.func.value.id in ("self", "cls") or e.func.value.id[:1].isupper()):
+        # a sibling method of the class under analysis (static helper or method on self): interpreted the same way
+        md = env["__methods__"][e.func.attr]
+        first = md.args.args[0].arg if md.args.args else None
+        is_static = any(isinstance(d, ast.Name) and d.id == "staticmethod" for d in md.decorator_list)
+        args = ([] if is_static or first not in ("self", "cls") else [env.get("self", "<self>")]) + [evaluate(a, env) for a in e.args]
+        return call_function(md, args, stubs=env.get("__stubs__"), funcs=env.get("__funcs__"), methods=env["__methods__"],
+                             _depth=env.get("__depth__", 0) + 1)
     if isinstance(e, ast.Call) and isinstance(e.func, ast.Name) and e.func.id in env.get("__funcs__", {}) and not e.keywords:
         # a module-level helper of the analysed program: interpreted the same way (never executed)
         return call_function(env["__funcs__"][e.func.id], [evaluate(a, env) for a in e.args], stubs=env.get("__stubs__"),
-                             funcs=env["__funcs__"], _depth=env.get("__depth__", 0) + 1)
+                             funcs=env["__funcs__"], methods=env.get("__methods__"), _depth=env.get("__depth__", 0) + 1)
     if isinstance(e, ast.Call) and isinstance(e.func, ast.Name) and e.func.id in _PURE and e.func.id not in env:
         kw = {k.arg: evaluate(k.value, env) for k in e.keywords}
         if any(k is None for k in kw) or (kw and set(kw) - {"reverse"}):
@@ -191,7 +203,7 @@ def _run(stmts, env, fuel):
             raise NoEval(src(st)[:40])
 
 
-def call_function(funcdef, args, fuel=20000, stubs=None, funcs=None, _depth=0):
+def call_function(funcdef, args, fuel=20000, stubs=None, funcs=None, _depth=0, methods=None):
     """Abstractly interpret a small pure function (assignments, if/for/while, return; pure builtins) on concrete arguments.
     Nothing of the repository is imported or executed; anything outside the interpreted subset raises NoEval."""
     params = [a.arg for a in funcdef.args.args]
@@ -200,11 +212,13 @@ def call_function(funcdef, args, fuel=20000, stubs=None, funcs=None, _depth=0):
     env = dict(zip(params, args))
     if stubs:
         env["__stubs__"] = stubs
+    if _depth > 6:
+        raise NoEval("helper nesting too deep")
+    env["__depth__"] = _depth
     if funcs:
-        if _depth > 6:
-            raise NoEval("helper nesting too deep")
         env["__funcs__"] = funcs
-        env["__depth__"] = _depth
+    if methods:
+        env["__methods__"] = methods
     try:
         _run(funcdef.body, env, [fuel])
     except _Return as r:
